@@ -58,7 +58,7 @@ def identity_rows(chk, F, which):
                 if why:
                     why = 'channel %d: %s' % (k, why)
                 ok = (shape, cname)
-                cur = (status, why, [scanners.describe_row(F, r) for r in rows][:2])
+                cur = (status, why, [scanners.describe_row(F, r) for r in rows[:2]])
                 if ok not in merged:
                     order.append(ok)
                     merged[ok] = cur
